@@ -59,7 +59,7 @@ def problem_cases(draw):
     dim = sum(v["n"] for v in vs)
     fr = st.one_of(st.sampled_from([0.0, 1.0]), st.floats(0.0, 1.0))
     dvs = [draw(st.lists(fr, min_size=dim, max_size=dim)) for _ in range(draw(st.integers(1, 4)))]
-    return {"variables": vs, "fractions": dvs, "shape": [draw(st.integers(2, 4)), draw(st.integers(2, 4))]}
+    return {"variables": vs, "fractions": dvs, "shape": [draw(st.integers(2, 4)), draw(st.integers(2, 4))], "render": draw(st.sampled_from(["python", "yaml"]))}
 
 
 @st.composite
@@ -120,11 +120,12 @@ def body_problem(case, rec):
 
     P.reset()
     vs = case["variables"]
-    rec.cls(f"vars:{len(vs)}", "has_vector" if any(not v["scalar"] for v in vs) else "scalars_only", "has_log" if any(v["log"] for v in vs) else "linear_only")
+    rec.cls(f"vars:{len(vs)}", "has_vector" if any(not v["scalar"] for v in vs) else "scalars_only", "has_log" if any(v["log"] for v in vs) else "linear_only",
+            f"render:{case.get('render', 'python')}")
     rec.nt(_nontrivial(vs))
     problem = None
     with rec.must_not_raise("valid_calibration_refused"):
-        cfg = pyx.build(_spec(case, rec.tmp))
+        cfg = pyx.build(_spec(case, rec.tmp), render=case.get("render", "python"), tmp=rec.tmp)  # (half of the calibrations come from a YAML document)
         problem = pyx_cal.make_problem(cfg.mode, cfg.detector, cfg.pipeline)
     if problem is None:
         return
